@@ -28,7 +28,11 @@ JudgePm(e) ==
 JudgeFg(e) ==
     LET ref == (\E k \in 1..Len(e.refP) : e.refP[k] /\ e.refG[k]) /\ (\A k \in 1..Len(e.refA) : ~e.refA[k]) IN
        Fails(e, 0, "RenumberingInvariant", \A k \in 1..Len(e.renum) : e.renum[k] = e.real)
-    \o Fails(e, 0, IF e.in_ring THEN "AgreesWithReference/ring" ELSE "AgreesWithReference", e.real = ref)
+    \o Fails(e, 0,
+             IF e.graphs /\ e.real = IsGroup(e.mol, e.atom + 1, e.pats, e.grps, e.antis)
+             THEN "AgreesWithReference/ring-overlap"     \* the real code does what the transcription of its search does
+             ELSE IF e.in_ring THEN "AgreesWithReference/ring" ELSE "AgreesWithReference",
+             e.real = ref)
 
 Judge(e) == CASE e.ev = "pm" -> JudgePm(e)
               [] e.ev = "fg" -> JudgeFg(e)
